@@ -256,7 +256,7 @@ fn enum_main_code_block(input: &Enum, ctx: &ImplContext) -> TokenStream {
     }
 }
 
-fn struct_init_block<'a>(input: &'a Struct, ctx: &ImplContext) -> TokenStream {
+fn struct_init_block<'a>(input: &'a Struct, ctx: &'a ImplContext) -> TokenStream {
     if (!ctx.kind.is_from() && ctx.struct_attr.type_hint == TypeHint::Unit) || (ctx.kind.is_from() && input.unit) {
         return TokenStream::new();
     }
@@ -287,8 +287,8 @@ fn struct_init_block<'a>(input: &'a Struct, ctx: &ImplContext) -> TokenStream {
             fields.into_iter()
         }));
 
-    fields.extend(input.attrs.ghosts_attrs.iter()
-        .flat_map(|x| &x.attr.ghost_data)
+    fields.extend(input.attrs.ghosts_attr(&ctx.struct_attr.ty, &ctx.kind).into_iter()
+        .flat_map(|x| &x.ghost_data)
         .filter_map(|x| {
             let res = make_tuple(x.get_child_path_str(None).into(), FieldData::GhostData(x));
             res.1.then_some(res.0)
@@ -402,8 +402,8 @@ fn enum_init_block(input: &Enum, ctx: &ImplContext) -> TokenStream {
     fields.extend(input.variants.iter()
         .map(VariantData::Variant).collect::<Vec<VariantData>>());
     
-    fields.extend(input.attrs.ghosts_attrs.iter()
-        .flat_map(|x| &x.attr.ghost_data)
+    fields.extend(input.attrs.ghosts_attr(&ctx.struct_attr.ty, &ctx.kind).into_iter()
+        .flat_map(|x| &x.ghost_data)
         .map(VariantData::GhostData));
 
     enum_init_block_inner(&mut fields.iter().peekable(), input, ctx)
@@ -485,7 +485,7 @@ fn variant_destruct_block(input: &Struct, ctx: &ImplContext) -> TokenStream {
     };
 
     if ctx.kind.is_from() {
-        idents.extend(input.attrs.ghosts_attrs.iter().flat_map(|x| &x.attr.ghost_data).map(|x| {
+        idents.extend(input.attrs.ghosts_attr(&ctx.struct_attr.ty, &ctx.kind).into_iter().flat_map(|x| &x.ghost_data).map(|x| {
             let ghost_ident = x.ghost_ident.get_ident();
             let ident = match ghost_ident {
                 Named(ident) => ident.to_token_stream(),
